@@ -329,6 +329,12 @@ pub trait Sut {
     /// Build another container form from a copy of the current contents and run
     /// one action on it. `None` if this adapter does not support the form.
     fn snap(&self, form: Form, actions: &[SnapAction]) -> Option<SnapResult>;
+    /// The comparing consumers of an iterator (`eq`, `ne`) against: itself; the same items behind an adaptor
+    /// whose size hint is not exact (`filter`); one item fewer (`skip(1)`); and `ne` against the filtered twin.
+    /// `None` where palette implements no iteration.
+    fn iter_cmp(&self) -> Option<[bool; 4]> {
+        None
+    }
 }
 
 pub struct TypeDesc {
@@ -572,6 +578,10 @@ macro_rules! soa {
                 }
                 fn iter<'a>(&'a self) -> Option<Box<dyn It + 'a>> {
                     Some(Box::new(ReadIt(self.0.iter(), |c: C<&f32>| to_item_ref(&c))))
+                }
+                fn iter_cmp(&self) -> Option<[bool; 4]> {
+                    let own = || self.0.clone().into_iter();
+                    Some([own().eq(own()), own().eq(own().filter(|_| true)), own().eq(own().skip(1)), own().ne(own().filter(|_| true))])
                 }
                 fn iter_mut<'a>(&'a mut self) -> Option<Box<dyn It + 'a>> {
                     Some(Box::new(WriteIt(
@@ -825,6 +835,10 @@ macro_rules! soa {
                 }
                 fn iter<'a>(&'a self) -> Option<Box<dyn It + 'a>> {
                     Some(Box::new(ReadIt(self.0.iter(), rf_a)))
+                }
+                fn iter_cmp(&self) -> Option<[bool; 4]> {
+                    let own = || self.0.clone().into_iter();
+                    Some([own().eq(own()), own().eq(own().filter(|_| true)), own().eq(own().skip(1)), own().ne(own().filter(|_| true))])
                 }
                 fn iter_mut<'a>(&'a mut self) -> Option<Box<dyn It + 'a>> {
                     Some(Box::new(WriteIt(self.0.iter_mut(), rd_a, wr_a)))
